@@ -290,7 +290,18 @@ func (c *FailoverController) ForceFailover(reason string) error {
 	c.logger.Warn("Forcing failover",
 		zap.String("reason", reason),
 	)
-	return c.initiateFailover(reason)
+	if err := c.initiateFailover(reason); err != nil {
+		return err
+	}
+
+	// initiateFailover only marks the failover as in progress and announces it;
+	// carry it out now, otherwise the controller would stay in progress forever.
+	c.executeFailover(reason)
+
+	if c.CurrentRole() != RoleActive {
+		return fmt.Errorf("failover did not complete")
+	}
+	return nil
 }
 
 // ForceFailback forces an immediate failback (for manual intervention).
@@ -409,8 +420,9 @@ func (c *FailoverController) initiateFailover(reason string) error {
 		return fmt.Errorf("already active, cannot failover")
 	}
 
+	// failoversInitiated is counted by executeFailover, which carries out every
+	// initiated failover.
 	c.state = FailoverStateInProgress
-	atomic.AddUint64(&c.failoversInitiated, 1)
 
 	c.notifyHandlers(FailoverEvent{
 		Type:         FailoverEventInitiated,
